@@ -7,6 +7,7 @@ import (
 	"fmt"
 	"math/rand"
 	"os"
+	"strings"
 	"testing"
 
 	"verifharness/bpfnative"
@@ -66,6 +67,7 @@ func TestExplore(t *testing.T) {
 		}
 		for _, c := range f.Cases {
 			s := NewSys(2)
+			s.NoConfig = strings.HasPrefix(c.System, "antispoof-noconfig")
 			tab, pr := core.Chain(s, s.Name()+"#"+c.ID, c.Events, false)
 			if pr != nil {
 				st.Panics = append(st.Panics, *pr)
@@ -96,6 +98,24 @@ func TestExplore(t *testing.T) {
 		st.Probes = len(tab.Nodes) * len(s.probes)
 		rng := rand.New(rand.NewSource(seed))
 		evs := s.Events()
+		// the object without the optional config map: mode changes reach the data plane only through bindings
+		nc := NewSys(2)
+		nc.NoConfig = true
+		for c := 0; c < nchains; c++ {
+			var seqv []core.Event
+			for i := 0; i < chainLen; i++ {
+				seqv = append(seqv, evs[rng.Intn(len(evs))])
+			}
+			tab, pr := core.Chain(nc, fmt.Sprintf("%s#%d", nc.Name(), c), seqv, false)
+			if pr != nil {
+				st.Panics = append(st.Panics, *pr)
+				continue
+			}
+			bundle.Systems = append(bundle.Systems, tab)
+			st.Chains++
+			st.ChainEvents += len(seqv)
+			st.Probes += len(seqv) * len(nc.probes)
+		}
 		for c := 0; c < nchains; c++ {
 			var seqv []core.Event
 			for i := 0; i < chainLen; i++ {
